@@ -252,7 +252,7 @@ def one(ctx, i):
 
 def run(ctx):
     import check
-    n = 160 if ctx.quick else 900
+    n = 160 if ctx.quick else 700
     check.pmap(ctx, 'props.c12', 'one', list(range(n)), case_timeout=200 if ctx.quick else 900)
 
 
